@@ -655,7 +655,10 @@ where
                                 ?e,
                                 "[block engine load]: deserialize read buffer raise error, remove this entry and skip"
                             );
-                            indexer.remove(hash);
+                            // Drop the address that failed to load and nothing newer: by now the index may hold
+                            // a later entry of the key, and dropping that one would let an older copy under
+                            // reinsertion take its place.
+                            indexer.remove_batch([(hash, addr.sequence)]);
                             Ok(Load::Miss)
                         }
                         _ => {
@@ -686,7 +689,7 @@ where
                                     ?e,
                                     "[block engine load]: deserialize read buffer raise error, remove this entry and skip"
                                 );
-                                indexer.remove(hash);
+                                indexer.remove_batch([(hash, addr.sequence)]);
                                 Ok(Load::Miss)
                             }
                             _ => {
